@@ -125,6 +125,7 @@ type kase struct {
 	Input string `json:"input,omitempty"`
 	Probe int    `json:"epilogue_at"`
 	Sig   string `json:"sig,omitempty"`
+	Ctx   string `json:"context,omitempty"` // static | wrap1 | wrap2: the frame is read-only
 }
 
 // spec is a case before assembly.
@@ -156,16 +157,17 @@ func epilogue(depth, msize int) []byte {
 }
 
 type checker struct {
-	c      *fw.Ctx
-	table  string
-	cancun bool
-	mine   func(int64) bool
-	idx    int64
-	done   int64
-	run    *runner
-	stop   bool
-	opHist [256]int64
-	sample map[string]int
+	c       *fw.Ctx
+	table   string
+	cancun  bool
+	mine    func(int64) bool
+	idx     int64
+	done    int64
+	run     *runner
+	stop    bool
+	opHist  [256]int64
+	sample  map[string]int
+	ctxSeen map[string]int
 }
 
 func (g *checker) refcfg(probe int) refevm.Config {
@@ -213,6 +215,9 @@ func (g *checker) next(mk func() *spec) {
 	v := g.judge(k, code, s.sigKind)
 	if v != nil && s.fam == "prog3" {
 		v = g.minimiseProg(s, v)
+	}
+	if v == nil && g.pickCtx(s) {
+		v = g.judgeContexts(k, code, "")
 	}
 	if v != nil {
 		g.c.Violation(v.sig, s.fam, v.msg, v.k)
@@ -1209,6 +1214,7 @@ func run(c *fw.Ctx) {
 	g.famArith()
 	g.famMemory()
 	g.famStack()
+	g.famContextTable()
 	g.famAlias()
 	g.famSequence()
 	g.famJump()
@@ -1250,6 +1256,16 @@ func replay(c *fw.Ctx, raw json.RawMessage) {
 	if err != nil {
 		fmt.Fprintln(os.Stderr, err)
 		os.Exit(2)
+	}
+	if k.Fam == "context-table" {
+		g.famContextTable() // the whole table is ~150 executions; re-judges every opcode including the recorded one
+		return
+	}
+	if k.Ctx != "" {
+		if v := g.judgeContexts(&k, code, k.Ctx); v != nil {
+			c.Violation(v.sig, k.Fam, v.msg, v.k)
+		}
+		return
 	}
 	kind := ""
 	if strings.HasPrefix(k.Sig, "C10:jump:") {
